@@ -538,8 +538,13 @@ PROPERTIES['C10']['obligations'] += [
          claim='IsConvex(polygon, eps) == true implies no reflex vertex (exact integer orientation >= 0 at every vertex) and no zero-length edge, for every lattice polygon whose vertices are not all one point (repeated points included): only then is the zig-zag TriangulateConvex fast path admissible',
          bounds='%d lattice vertices in [-2,2]^2, any eps in [0,4]; IEEE binary16 arithmetic for normalize/determinant' % n, targets=['polygon.cpp IsConvex', 'linalg normalize, determinant2x2'])
     for n in (4, 5)]
-PROPERTIES['C10']['level_text'] = 'Bounded model checking of the predicates the triangulator and its convex fast path are built on: CCW with zero tolerance equals the sign of the exact integer determinant on a lattice and is antisymmetric for every tolerance; IsConvex, the gate of the zig-zag fast path, only accepts lattice polygons without a reflex vertex and without zero-length edges.'
-PROPERTIES['C10']['level_note'] = 'Predicates only (CCW, IsConvex). Ear clipping, keyholing, HalfedgeTriangulation pairing, TriangulateConvex itself, termination and independence from triangulator reuse are NOT covered (std::multiset/linked-list state of the ear clipper is outside what the encoder reaches at a useful size).'
+PROPERTIES['C10']['obligations'] += [
+    dict(name='ear_isshort', harness='c10_ear.cpp', entry='h_isshort', real='f32', models=['stdlib.h'], backends=['minisat', 'kissat'], timeout=1200, unwind={'default': 3}, recursion={'default': 2},
+         claim='EarClip::Vert::IsShort(eps) - the only ear-clipping path without a convexity or containment test - implies CCW(left, pos, right, eps) >= 0 (the emitted triangle is never clockwise beyond the tolerance) and is exactly "outgoing edge shorter than eps/2"',
+         bounds='three vertices on the quarter lattice in [-2,2]^2, eps a multiple of 1/8 in (0,4]; binary32 arithmetic, in which every product met on this lattice is exact (so the verdict is that of double arithmetic)', targets=['polygon.cpp EarClip::Vert::IsShort', 'utils.h CCW'])
+]
+PROPERTIES['C10']['level_text'] = 'Bounded model checking of the predicates the triangulator and its convex fast path are built on: CCW with zero tolerance equals the sign of the exact integer determinant on a lattice and is antisymmetric for every tolerance; IsConvex, the gate of the zig-zag fast path, only accepts lattice polygons without a reflex vertex and without zero-length edges; the ear clipper\'s IsShort (its only unchecked clipping path) implies that the clipped triangle is not clockwise beyond the tolerance.'
+PROPERTIES['C10']['level_note'] = 'Predicates only (CCW, IsConvex, EarClip::Vert::IsShort). Ear clipping, keyholing, HalfedgeTriangulation pairing, TriangulateConvex itself, termination and independence from triangulator reuse are NOT covered (std::multiset/linked-list state of the ear clipper is outside what the encoder reaches at a useful size).'
 
 # ---- level texts: additions of round 2 (kept at the end so that the tables above stay readable)
 PROPERTIES['C01']['level_text'] += ' Impl::IsManifold(), the gate of the import constructor, accepts exactly the halfedge arrays an independently written specification accepts.'
